@@ -148,6 +148,13 @@ func (m *c20Model) apply(o c20Op) int {
 			if o.Val == ":+" {
 				used = set && !null
 			}
+			if o.Val == "%" || o.Val == "#" {
+				// the pattern is expanded only when there is something to remove from
+				used = set && !null
+				if !set && m.opts&interp.NoUnset != 0 {
+					return -2 // an error is expected (C13's subject); the store must stay as it is
+				}
+			}
 			if !used {
 				return 0
 			}
@@ -181,6 +188,8 @@ func (m *c20Model) apply(o c20Op) int {
 				return 0
 			case o.Val == ":?" || o.Val == "?":
 				return 1
+			case o.Val == "%" || o.Val == "#":
+				return 0
 			}
 			return 0
 		}
@@ -362,6 +371,13 @@ func c20Ops() []c20Op {
 			ops = append(ops, c20Op{Kind: "expand", Name: "a", Val: op, Inner: inner, Text: "${a" + op + inner + "}"})
 		}
 	}
+	// pattern removal whose pattern is itself an assigning expansion
+	for _, op := range []string{"%", "#"} {
+		for _, inner := range []string{"${b:=w}", "$((b=3))"} {
+			ops = append(ops, c20Op{Kind: "expand", Name: "a", Val: op, Inner: inner, Text: "${a" + op + inner + "}"})
+			ops = append(ops, c20Op{Kind: "expand", Name: "b", Val: op, Inner: inner, Text: "${b" + op + inner + "}"})
+		}
+	}
 	// tilde expansion reads HOME and must not write it
 	for _, t := range []string{"~", "~/a", "a:~", "${HOME=w}"} {
 		o := c20Op{Kind: "expand", Name: "HOME", Val: "", Text: t}
@@ -424,6 +440,8 @@ func c20Replay(c c20Case, checkAll bool) (env *interp.ExecEnv, m *c20Model, bad 
 			return env, m, fmt.Sprintf("step %d %v panicked: %v", i, o, pan)
 		case note != "":
 			return env, m, fmt.Sprintf("step %d %v: %s", i, o, note)
+		case must == -2:
+			// status not compared
 		case must == 1 && !failed:
 			return env, m, fmt.Sprintf("step %d %v must fail but returned no error (store before: %s)", i, o, pre)
 		case must == 0 && failed:
